@@ -674,6 +674,85 @@ func randDesc(rng *rand.Rand, n *node, depth int) *node {
 	return n
 }
 
+// classify records what kind of offer a batch is, relative to the stored chain.
+func (s *sys) classify(t *tr.W, batch, stored []*node) {
+	on := func(n *node) bool { return int(n.height) < len(stored) && stored[n.height] == n }
+	i := 0
+	for i < len(batch) && on(batch[i]) {
+		i++
+	}
+	if i == len(batch) {
+		t.Hit("in.all-known")
+		return
+	}
+	rest := batch[i:]
+	fp := rest[0].parent
+	if fp == nil || !on(fp) {
+		t.Hit("in.orphan")
+		return
+	}
+	valid := true
+	for _, n := range rest {
+		valid = valid && n.valid
+	}
+	tipH := int32(len(stored) - 1)
+	cps := s.w.params.Checkpoints
+	for _, n := range rest {
+		for _, c := range cps {
+			if c.Height == n.height && *c.Hash != n.hash {
+				t.Hit("in.checkpoint-mismatch")
+			}
+		}
+	}
+	for _, c := range cps {
+		if c.Height == tipH {
+			t.Hit("in.tip-on-checkpoint")
+		}
+	}
+	if fp.height == tipH {
+		if valid {
+			t.Hit("in.extend.valid")
+		} else if rest[0].valid {
+			t.Hit("in.extend.valid-up-to-k")
+		} else {
+			t.Hit("in.extend.invalid-first")
+		}
+		return
+	}
+	floor := int32(0)
+	for _, c := range cps {
+		if c.Height <= tipH {
+			floor = c.Height
+		}
+	}
+	switch {
+	case fp.height < floor:
+		t.Hit("in.fork.below-checkpoint")
+	case fp.height == floor && floor > 0:
+		t.Hit("in.fork.at-checkpoint")
+	default:
+		t.Hit("in.fork.above-checkpoint")
+	}
+	nw, ow := new(big.Int), new(big.Int)
+	for _, n := range rest {
+		nw.Add(nw, n.work)
+	}
+	for _, n := range stored[fp.height+1:] {
+		ow.Add(ow, n.work)
+	}
+	if !valid {
+		t.Hit("in.fork.invalid")
+	}
+	switch nw.Cmp(ow) {
+	case -1:
+		t.Hit("in.fork.lighter")
+	case 0:
+		t.Hit("in.fork.equal-work")
+	default:
+		t.Hit("in.fork.heavier")
+	}
+}
+
 // filter hashes: any deterministic function of the block will do
 func filterHash(n *node) chainhash.Hash {
 	return chainhash.DoubleHashH(append([]byte("filter"), n.hash[:]...))
@@ -750,8 +829,28 @@ func runCase(t *tr.W, rng *rand.Rand, nev int, script string) {
 			}
 			s.lastGood = n
 		}
+		before := append([]*node{}, s.stored...)
+		discBefore := neutrino.VerifPeerDisconnected(s.peers[p-1])
+		s.classify(t, batch, before)
 		r := guard(func() { s.bm.Headers(s.peers[p-1], hs) })
 		t.Op(fmt.Sprintf("headers %d %s", p, ids(batch)), s.dump(r, 0, "[]"))
+		// what the real code did with it (input/outcome distribution for the evidence)
+		k := 0
+		for k < len(before) && k < len(s.stored) && before[k] == s.stored[k] {
+			k++
+		}
+		switch {
+		case k < len(before) && k < len(s.stored):
+			t.Hit("out.reorganised")
+		case k < len(before):
+			t.Hit("out.rolled-back")
+		case k < len(s.stored):
+			t.Hit("out.extended")
+		case !discBefore && neutrino.VerifPeerDisconnected(s.peers[p-1]):
+			t.Hit("out.unchanged-peer-disconnected")
+		default:
+			t.Hit("out.unchanged")
+		}
 	}
 	cut := func(b []*node) []*node {
 		if len(b) > 1 && rng.Intn(3) == 0 {
@@ -995,7 +1094,7 @@ func scratchRoot() func() {
 func Run(t *tr.W, thorough bool) {
 	defer scratchRoot()()
 	rng := tr.Rng(7101)
-	ncases := 60
+	ncases := 120
 	if thorough {
 		ncases = 1500
 	}
